@@ -50,6 +50,8 @@ Step ==
        (* not a clause of any listed property: error exactly when a required file is missing; counted as drift *)
        /\ drift' = drift + (IF Ok(1) /\ e.runs[1].res = Result(ParseFeed(feed, e.opts.inherit)) THEN 0 ELSE IF Ok(1) THEN 1 ELSE 0)
                          + (IF ((Outcome(feed) = "result") /\ e.empty = <<>>) = Ok(1) THEN 0 ELSE 1)
+                         (* row level: the rows the static.accept hook reported are the rows the model accepts *)
+                         + (IF Ok(1) /\ e.runs[1].accepted # ModelAccepted(feed, e.opts.inherit) THEN 1 ELSE 0)
     /\ nRel' = nRel + (IF Trace[l].relation \in {"C08.permutation", "C09.inert", "C10.equal", "C10.inherit"}
                               /\ Len(Trace[l].baseRun) = 1 /\ Trace[l].baseRun[1].err = "" /\ Trace[l].runs[1].err = "" THEN 1 ELSE 0)
     /\ l' = l + 1
